@@ -498,3 +498,63 @@ def tokens_compared_as_integers(ctx, clause: str):
            (f"`{u(bad[0][0])[:70]}` compares token ids that went through `{u(bad[0][1])[:50]}`: in floating point distinct ids from 2**24 "
             f"on are equal, so a substitution between them is free and a token next to eos ends the sequence") if bad else "", rel,
            bad[0][0].lineno if bad else f.line, sample=sites)
+
+
+def distance_buffers_are_floating(ctx, clause: str):
+    """The kernel's results are weighted distances: real numbers as soon as a cost is not an integer. A buffer that collects rows of
+    the dynamic programme (`buf[k] = row.gather(...)`) must be a floating-point tensor; an indexed store into an integer buffer
+    truncates every value towards zero without any error. A buffer's dtype is what its creation says: an explicit `dtype=`, the
+    default (floating) of torch.empty / zeros / ones, the dtype of the fill value for torch.full without `dtype=` (an int fill - the
+    padding value - makes it int64), the source tensor's for `*_like` / `new_*`."""
+    col, pkg = ctx.col, ctx.pkg
+    rel = pkg.module(MOD).relname
+    f = pkg.func(f"{MOD}::{KERNEL}")
+    where = f"{rel}::{KERNEL}"
+    rd = ReachingDefs(f.node)
+    float_formals = {p.name for p in f.params if p.annotation is not None and u(p.annotation) == "float"}
+    int_formals = {p.name for p in f.params if p.annotation is not None and u(p.annotation) in ("int", "Optional[int]", "bool")}
+    state = {"row", "mistakes"}
+
+    def is_float_dtype(e):
+        t = u(e)
+        return t in ("torch.float", "torch.float32", "torch.double", "torch.float64", "torch.get_default_dtype()") or t.endswith(".dtype") and t.split(".")[0] in state
+
+    stores = {}
+    for n in own_nodes(f.node):
+        if isinstance(n, ast.Assign) and len(n.targets) == 1 and isinstance(n.targets[0], ast.Subscript) and isinstance(n.targets[0].value, ast.Name):
+            v = n.value
+            if isinstance(v, (ast.Compare, ast.BoolOp)):
+                continue
+            if not (rd.derives(v).names() & state) and not any(isinstance(x, ast.Name) and x.id in state for x in ast.walk(v)):
+                continue
+            stores.setdefault(n.targets[0].value.id, []).append(n)
+    n_buf = 0
+    for name, sts in stores.items():
+        if name in state:
+            continue
+        for d in rd.defs_of(sts[0].targets[0].value):
+            c = d.value
+            if not (d.kind == "assign" and isinstance(c, ast.Call)):
+                continue
+            cn = call_name(c)
+            if cn not in ("torch.empty", "torch.zeros", "torch.ones", "torch.full"):
+                continue
+            if cn == "torch.empty" and len(c.args) == 1 and isinstance(c.args[0], ast.Constant) and c.args[0].value == 0:
+                continue  # (the TorchScript placeholder `torch.empty(0)`)
+            n_buf += 1
+            dt = kwarg(c, "dtype")
+            if dt is not None:
+                ok, why = is_float_dtype(dt), f"is created with dtype={u(dt)}"
+            elif cn == "torch.full":
+                fill = c.args[1] if len(c.args) > 1 else kwarg(c, "fill_value")
+                isf = fill is not None and ((isinstance(fill, ast.Constant) and isinstance(fill.value, float)) or call_name(fill) == "float" if isinstance(fill, (ast.Constant, ast.Call)) else
+                                            (isinstance(fill, ast.Name) and fill.id in float_formals))
+                ok, why = bool(isf), f"is created by torch.full without dtype= and takes the dtype of its fill `{u(fill) if fill is not None else None}`" + (
+                    " (an integer: int64)" if isinstance(fill, ast.Name) and fill.id in int_formals else "")
+            else:
+                ok, why = True, ""
+            col.ob("G28", clause, f"{where}::{name}::distance-buffer-is-floating-point", ok,
+                   f"`{name}` {why}, and `{u(sts[0])[:70]}` stores rows of the dynamic programme into it: with a non-integer cost every "
+                   f"stored distance is truncated towards zero (the per-prefix distances disagree with the whole-string distance)", rel, c.lineno,
+                   sample=u(c)[:100])
+    col.floor("distance_buffers", n_buf, 1)
